@@ -370,6 +370,12 @@ def main(argv=None):
   print(f"{prop} [{tier}] functions={len(funcs)} obligations={counted} discharged={n_discharged} "
         f"ground={len(ground_out)} bounded_evaluations={total_eval} undecided={len(undecided)} "
         f"violations={len(violations)} wall={wall:.1f}s")
+  slow = sorted(((g["gen_time"], g["target"]) for g in gens if g["gen_time"] > 8), reverse=True)[:5]
+  if slow:
+    print("slow VC generation:", "; ".join(f"{t:.0f}s {n.split('::')[1]}" for t, n in slow))
+  slow2 = sorted(((r.get("time", 0), o["label"][:80]) for o, r in zip(all_obs, results) if r.get("time", 0) > 8), reverse=True)[:5]
+  if slow2:
+    print("slow obligations:", "; ".join(f"{t:.0f}s {n}" for t, n in slow2))
   if crash:
     for c_ in crash:
       print("checker error:", c_[:2000])
